@@ -13,6 +13,32 @@ from hmc_zoo import make_sampler, rederive, trace_pos
 LEVEL = "proof"
 
 
+class _St:
+    """minimal stand-in for a chain state when re-evaluating trace functions on recorded positions"""
+
+    def __init__(self, pos):
+        self.pos = np.asarray(pos)
+
+
+class SummaryTrace:
+    def __call__(self, state):
+        return {"sumsq": float(np.sum(state.pos ** 2)), "first": state.pos[0]}
+
+
+class IntNorm:
+    def __call__(self, state):
+        return {"norm": int(np.floor(np.sum(np.abs(state.pos)) * 8))}
+
+
+class FloatNorm:
+    def __call__(self, state):
+        return {"norm": float(np.sum(np.abs(state.pos)))}
+
+
+def sampler_fresh(kind, seed):
+    return make_sampler(kind, seed)
+
+
 def storage_search(ctx):
     """Real HMC: rows vs an independently re-derived chain; RAM vs memmap (temp / user dir) vs processes; dtypes; lengths."""
     bad = 0
@@ -77,8 +103,41 @@ def storage_search(ctx):
                     bad += 1
                     ctx.fail(f"rows:{vname}", f"sample_chains({kind}, chains={n_chain}, n_main={n_iter}, {vname}): {probs[0]}",
                              {"kind": kind, "n_chain": n_chain, "n_iter": n_iter, "variant": vname, "seed": seed, "inits": inits, "problems": probs[:5]})
-    ctx.oblige(f"search: {len(grid)} real HMC configurations x storage/process/init variants, rows re-derived with an independent chain loop",
-               bad == 0, f"{bad} failures")
+    # trace-function sets: several functions, disjoint and SHARED keys (documented: the last function returning a key wins), scalar / vector / integer values
+    for kind, vname, kw in (("static", "ram", dict()), ("multinomial", "memmap_tmp", dict(force_memmap=True)), ("static", "proc2", dict(n_process=2))):
+        seed = int(ctx.rng.integers(0, 2 ** 31))
+        inits = [list(ctx.rng.standard_normal(2)) for _ in range(2)]
+        n_iter = 6
+        ref = rederive(kind, seed, inits, n_iter)
+        sampler = make_sampler(kind, seed)
+        fsets = {"pos+summary": [trace_pos, SummaryTrace()], "int-then-float": [IntNorm(), trace_pos, FloatNorm()], "float-then-int": [FloatNorm(), IntNorm()]}
+        for sname, funcs in fsets.items():
+            try:
+                out = sampler_fresh(kind, seed).sample_chains(0, n_iter, [np.array(q) for q in inits], trace_funcs=funcs, display_progress=False, **kw)
+            except Exception as e:  # noqa: BLE001
+                bad += 1
+                ctx.fail(f"tracefuncs:{sname}:raises", f"sample_chains with trace functions {sname} ({vname}) raised {type(e).__name__}: {e}", {"kind": kind, "set": sname, "variant": vname})
+                continue
+            ctx.case(("tracefuncs", kind, vname, sname))
+            ctx.count("search:trace_function_sets")
+            probs = []
+            for c in range(2):
+                rows = np.array(ref[c][0])
+                want = {}
+                for f in funcs:
+                    for key in f(_St(rows[0])).keys():
+                        want[key] = np.array([np.asarray(f(_St(r))[key]) for r in rows])
+                for key, w in want.items():
+                    got = np.asarray(out.traces[key][c])
+                    if got.shape != w.shape or not np.allclose(got, w, rtol=0, atol=0, equal_nan=True):
+                        probs.append(f"chain {c}: trace '{key}' rows are not the values of the last trace function returning that key "
+                                     f"(stored dtype {got.dtype}, first row {got[0].tolist() if got.size else None} vs {w[0].tolist()})")
+            if probs:
+                bad += 1
+                ctx.fail(f"tracefuncs:{sname}", f"sample_chains({kind}, {vname}) with trace functions {sname}: {probs[0]}", {"kind": kind, "variant": vname, "set": sname, "seed": seed,
+                                                                                                                             "inits": inits, "problems": probs[:4]})
+    ctx.oblige(f"search: {len(grid)} real HMC configurations x storage/process/init variants, rows re-derived with an independent chain loop; trace-function sets with "
+               f"disjoint and shared keys of different dtypes", bad == 0, f"{bad} failures")
 
 
 def run(ctx):
